@@ -152,9 +152,37 @@ def run_chunk(job):
     ctx = worker_ctx()
     agg = dict(stream=stream, evaluations=0, hashes=[], nontrivial_hashes=[], dist=collections.Counter(),
                samples=[], failures=[], skipped=0)
+    import signal
+
+    class CaseTimeout(Exception):
+        pass
+
+    def on_alarm(signum, frame):
+        raise CaseTimeout()
+    limit = int(os.environ.get('VERIF_CASE_TIMEOUT', getattr(mod, 'CASE_TIMEOUT', 120)))
     for seed in seeds:
         try:
-            r = mod.run_case(stream, seed, ctx, params)
+            # one generated case never needs more than a few seconds; an endless loop in the code under test
+            # (or in a generator) must not hang the check
+            old = signal.signal(signal.SIGALRM, on_alarm)
+            signal.alarm(limit)
+            try:
+                r = mod.run_case(stream, seed, ctx, params)
+            finally:
+                signal.alarm(0)
+                signal.signal(signal.SIGALRM, old)
+        except CaseTimeout:
+            # the driver may have an unanswered request pending: start a fresh one
+            try:
+                ctx['drv'].p.kill()
+            except Exception:  # noqa
+                pass
+            from . import lean as _lean
+            ctx['drv'] = _lean.Driver()
+            agg['failures'].append(Failure(kind='infra', stream=stream, seed=seed,
+                                           message='case did not finish within %d s (stream %s, seed %d)' % (limit, stream, seed),
+                                           signature={'stream': stream, 'class': 'case-timeout'}, replay=None))
+            continue
         except Exception as e:  # noqa
             agg['failures'].append(Failure(kind='infra', stream=stream, seed=seed,
                                            message='harness exception: %s' % traceback.format_exc()[-1500:],
